@@ -18,7 +18,9 @@ RULE = ('Valid powertrains by construction (as C01/C02, inertias in all 8 inerti
         'instants: advanced speed w* = w[k-1] + a[k-1] * dt (dt = the requested step of that run, in seconds), '
         'recorded speed = w* (or exactly 0 in a self-locking powertrain), position = theta[k-1] + w* * dt. '
         'Non-trivial = >= 3 instants with non-zero acceleration, a ratio != 1 and two element inertias within two '
-        'decades (so that forgetting one is visible); distinct = canonical JSON.')
+        'decades (so that forgetting one is visible); distinct = canonical JSON. golden: the two worked examples of the '
+        'documentation, simulated from their documented inputs, must reproduce the kinematic and torque columns of the '
+        'snapshot tables printed there (t = 10 s) to the printed precision.')
 ASSUMPTIONS = ['equivalent inertia by the documented reduction in vp/model.py',
                'additive tolerance 64 eps of the operands + 1e-9 of the increment (a wrong increment stays visible '
                'behind a large accumulated value)']
@@ -55,7 +57,15 @@ def check(case) -> Result:
     return res
 
 
+def check_golden(case) -> Result:
+    from vp import golden
+    return golden.check_golden(case, ID, columns=('angular position', 'angular speed', 'angular acceleration', 'torque',
+                                                   'driving torque', 'load torque'))
+
+
 def parts(tier):
+    from vp import golden
+    gold = Part('golden', check_golden, enumerate=golden.enum_golden, chunk=1)
     if tier == 'quick':
-        return [Part('chains', check, strategy=G.s_case_controlled(max_len=6, max_steps=30), examples=120, shards=4)]
-    return [Part('chains', check, strategy=G.s_case_controlled(max_len=11, max_steps=120), examples=2500, shards=16)]
+        return [gold, Part('chains', check, strategy=G.s_case_controlled(max_len=6, max_steps=30), examples=120, shards=4)]
+    return [gold, Part('chains', check, strategy=G.s_case_controlled(max_len=11, max_steps=120), examples=2500, shards=16)]
